@@ -266,23 +266,44 @@ pub(crate) fn decouple_v_models(
 }
 
 pub(crate) fn transform_text(text: &str) -> String {
-    let jsx_text_value = text.replace('\t', " ");
-    let mut jsx_text_lines = jsx_text_value.lines().enumerate().peekable();
-
+    // The standard JSX text rule: lines are separated by CRLF, LF or CR; tabs count as
+    // spaces; spaces next to a line break and whitespace-only lines are removed and the
+    // remaining lines are joined by a single space. Everything else is preserved,
+    // including inline leading/trailing spaces and non-ASCII whitespace such as NBSP.
     let mut lines = vec![];
-    while let Some((index, line)) = jsx_text_lines.next() {
-        let line = if index == 0 {
-            // first line
-            line.trim_end()
-        } else if jsx_text_lines.peek().is_none() {
-            // last line
-            line.trim_start()
+    let mut rest = text;
+    while let Some(index) = rest.find(['\r', '\n']) {
+        lines.push(&rest[..index]);
+        rest = if rest[index..].starts_with("\r\n") {
+            &rest[index + 2..]
         } else {
-            line.trim()
+            &rest[index + 1..]
         };
+    }
+    lines.push(rest);
+
+    let last_non_empty_line = lines
+        .iter()
+        .rposition(|line| line.contains(|c| c != ' ' && c != '\t'))
+        .unwrap_or_default();
+    let last_line = lines.len() - 1;
+
+    let mut result = String::with_capacity(text.len());
+    for (index, line) in lines.into_iter().enumerate() {
+        let line = line.replace('\t', " ");
+        let mut line = line.as_str();
+        if index != 0 {
+            line = line.trim_start_matches(' ');
+        }
+        if index != last_line {
+            line = line.trim_end_matches(' ');
+        }
         if !line.is_empty() {
-            lines.push(line);
+            result.push_str(line);
+            if index != last_non_empty_line {
+                result.push(' ');
+            }
         }
     }
-    lines.join(" ")
+    result
 }
